@@ -36,7 +36,7 @@ CW = 'chainables.courier_worker'
 
 
 def run(ctx: Ctx):
-  for r in (r1, r2, r3, r4, r5, r6, r7):
+  for r in (r1, r2, r3, r4, r5, r6, r7, r10):
     ctx.guard(r)
   from mlmverif.props import c03
   ctx.include('R-C16-9', '"delivers exactly one final aggregate result": the'
@@ -417,11 +417,46 @@ def r7(ctx: Ctx):
   ctx.floor(rule, 2, n)
 
 
+def r10(ctx: Ctx):
+  rule = 'R-C16-10'
+  ctx.rule(rule, 'a shard pipeline is built afresh for every run: the traced'
+           ' calls of the pipeline definition that are sent to the workers'
+           ' carry no result caching (`cache_result_` absent or False) — a'
+           ' pipeline object holds one-shot state (data-source iterators,'
+           ' aggregation state); a cached one is reused by the next identical'
+           ' run and yields nothing')
+  fi = ctx.repo.func(ORCH, 'sharded_pipelines_as_iterator')
+  dp = fi.params()[1]
+  n = 0
+  for c in ast.walk(fi.node):
+    if isinstance(c, ast.Call) and isinstance(c.func, ast.Call) and c.func.args and isinstance(
+        c.func.args[0], ast.Name) and c.func.args[0].id == dp and unparse(c.func.func).endswith('trace'):
+      n += 1
+      flags = {k.arg: k.value for k in c.keywords if k.arg in ('cache_result_', 'lazy_result_')}
+      flags.update({k.arg: k.value for k in c.func.keywords if k.arg in ('use_cache', 'lazy_result')})
+      bad = [a for a, v in flags.items() if a in ('cache_result_', 'use_cache')
+             and not (isinstance(v, ast.Constant) and v.value in (False, None))]
+      if bad:
+        ctx.fail(rule, fi, f'sharded_pipelines_as_iterator: trace({dp})(...) without result caching',
+                 f'the per-shard task is traced with {bad[0]}={unparse(flags[bad[0]])}: the'
+                 ' worker keeps the built pipeline (with its consumed data source'
+                 ' and its state) and hands the same object to the next run with'
+                 ' the same arguments — that run delivers no batches and an empty'
+                 ' aggregate', node=c)
+      else:
+        ctx.ok(rule, fi, 'per-shard pipelines are traced without caching', c)
+  ctx.floor(rule, 1, n)
+
+
 from mlmverif.selfcheck import B, OK  # noqa: E402
 
 _T = 'chainables/transform.py'
 _O = 'chainables/orchestrate.py'
 VARIANTS = [
+    B('shard-pipeline-cached-at-worker', 'chainables/orchestrate.py',
+      '          shard_index=i,\n          num_shards=num_shards,\n          **pipeline_kwargs,',
+      '          shard_index=i,\n          num_shards=num_shards,\n          cache_result_=True,\n          **pipeline_kwargs,',
+      'R-C16-10'),
     B('final-drain-removed', 'chainables/courier_worker.py',
       '      event_loop.call_soon_threadsafe(event_loop.stop)\n      while not output_queue.empty():\n        batch_cnt += 1\n        yield output_queue.get()\n',
       '      event_loop.call_soon_threadsafe(event_loop.stop)\n', 'R-C16-6'),
